@@ -57,7 +57,7 @@ def main():
         "setup_cmd": "bin/check setup",
         "hooks": {
             "guard": "verif",
-            "enable": "no file in /repo is changed for the machinery: the harness file /verif/overlay/zz_verif_export.go is injected into package jsonschema with `go build -overlay /verif/overlay/overlay.json` (native engine binary) and packages.Config.Overlay (SSA load); the build tag name is reserved but unused. /repo carries only unguarded `fix:` commits.",
+            "enable": "no file in /repo is changed for the machinery: the harness file /verif/overlay/zz_verif_export.go is injected into package jsonschema with `go build -overlay <file>` (bin/check writes the overlay description on every invocation; native engine binary) and packages.Config.Overlay (SSA load); the build tag name is reserved but unused. /repo carries only unguarded `fix:` commits.",
             "baseline_off_cmd": "cd /repo && go test -vet=off -count=1 ./...",
             "source_commits": [],
             "add_only": True,
